@@ -85,6 +85,7 @@ fn stmts_have(ss: &[Stmt], pred: &dyn Fn(&Expr) -> bool) -> bool {
     ss.iter().any(|s| match s {
         Stmt::Assign(_, e) => expr_has(e, pred),
         Stmt::If(c, t, f) => expr_has(c, pred) || stmts_have(t, pred) || stmts_have(f, pred),
+        Stmt::Call(_, args) => args.iter().any(|a| matches!(a, Arg::In(e) if expr_has(e, pred))),
     })
 }
 
@@ -122,6 +123,28 @@ fn comb_seq_reassign(ss: &[Stmt]) -> bool {
                     }
                     walk(t, seen, twice, own_read);
                     walk(f, seen, twice, own_read);
+                }
+                Stmt::Call(_, args) => {
+                    for a in args {
+                        if let Arg::In(e) = a
+                            && expr_has(e, &|x| matches!(x, Expr::Ref(p) if (0..p.w).any(|i| seen.contains(&(p.sig, p.lo + i)))))
+                        {
+                            *own_read = true;
+                        }
+                    }
+                    for a in args {
+                        if let Arg::Out(ts) = a {
+                            for t in ts {
+                                if let Target::Sig(p) = t {
+                                    for i in 0..p.w {
+                                        if !seen.insert((p.sig, p.lo + i)) {
+                                            *twice = true;
+                                        }
+                                    }
+                                }
+                            }
+                        }
+                    }
                 }
             }
         }
@@ -177,7 +200,7 @@ fn verdicts(d: &Design, sem_extra: Sem) -> (Verdicts, Vec<graph::ModGraph>) {
 enum Judged {
     Skip(String),
     Fail { sig: String, msg: String, module: String },
-    Ok { v: Verdicts, reported: Vec<bool>, text: String, warned: bool },
+    Ok { v: Verdicts, reported: Vec<bool>, text: String, warned: bool, gf: Vec<graph::ModGraph> },
 }
 
 /// Render, analyse with the real front end, compare with the graphs.
@@ -238,7 +261,7 @@ fn judge(design: &Design, _mode: Mode) -> Judged {
             );
         }
     }
-    Judged::Ok { v, reported, text, warned }
+    Judged::Ok { v, reported, text, warned, gf }
 }
 
 /// Root-cause attribution of a wrong verdict on module `i` to a listed
@@ -306,7 +329,7 @@ pub fn gen_text(choices: Vec<u32>, defects: bool) -> String {
 fn case(d: &mut Draw, mode: Mode, big: bool, known: &[String]) -> Outcome {
     let (design, info) = draw_design(d, mode, big);
     let nm = design.modules.len();
-    let (v, reported, text, warned) = match judge(&design, mode) {
+    let (v, reported, text, warned, gf) = match judge(&design, mode) {
         Judged::Skip(r) => {
             // development aid: keep a few rejected designs for inspection
             if let Ok(dir) = std::env::var("C14_DUMP_SKIPS") {
@@ -315,7 +338,7 @@ fn case(d: &mut Draw, mode: Mode, big: bool, known: &[String]) -> Outcome {
             }
             return Outcome::skip(r);
         }
-        Judged::Ok { v, reported, text, warned } => (v, reported, text, warned),
+        Judged::Ok { v, reported, text, warned, gf } => (v, reported, text, warned, gf),
         Judged::Fail { sig, msg, module } => {
             let (text, _) = render(&design);
             if known.contains(&sig) || sig.starts_with("harness/") {
@@ -377,6 +400,80 @@ fn case(d: &mut Draw, mode: Mode, big: bool, known: &[String]) -> Outcome {
     }
     if any(&|i| v.coarse[i] && !v.fine[i].cyclic && design.modules[i].items.iter().any(|it| item_has(it, &call))) {
         classes.push("near-miss:module-with-function-call".into());
+    }
+    // ---- statement-style calls with output arguments
+    fn out_calls<'a>(ss: &'a [Stmt], out: &mut Vec<&'a Vec<Arg>>) {
+        for s in ss {
+            match s {
+                Stmt::Assign(..) => {}
+                Stmt::If(_, t, f) => {
+                    out_calls(t, out);
+                    out_calls(f, out);
+                }
+                Stmt::Call(_, args) => out.push(args),
+            }
+        }
+    }
+    let mut any_out_call = vec![false; nm];
+    let mut out_call_in_loop = false;
+    for i in 0..nm {
+        for it in &design.modules[i].items {
+            if let Item::Comb(ss) = it {
+                let mut calls = Vec::new();
+                out_calls(ss, &mut calls);
+                for args in calls {
+                    any_out_call[i] = true;
+                    for a in args {
+                        if let Arg::Out(ts) = a {
+                            for t in ts {
+                                if let Target::Sig(p) = t
+                                    && (0..p.w).any(|b| v.fine[i].nodes.contains(&((gf[i].base[p.sig] + p.lo + b) as graph::Node)))
+                                {
+                                    out_call_in_loop = true;
+                                }
+                            }
+                        }
+                    }
+                }
+            }
+        }
+    }
+    if any_out_call.iter().any(|x| *x) {
+        classes.push("output-argument-call".into());
+    }
+    if out_call_in_loop {
+        classes.push("loop:through-bits-written-by-output-argument-call".into());
+    }
+    if any(&|i| any_out_call[i] && v.coarse[i] && !v.fine[i].cyclic) {
+        classes.push("near-miss:module-with-output-argument-call".into());
+    }
+    for (k, name) in ["whole-variable", "part-select-not-at-bit-0", "part-select-at-bit-0", "struct-member", "array-element", "concatenation-piece"].iter().enumerate() {
+        if info.out_actual[k] > 0 {
+            classes.push(format!("output-actual:{name}"));
+        }
+    }
+    if info.out_body_copy > 0 {
+        classes.push("output-formal:positional-copy-body".into());
+    }
+    if info.out_body_other > 0 {
+        classes.push("output-formal:operator-or-branch-body".into());
+    }
+    // ---- dead stores inside one if arm
+    if !info.dead_stores.is_empty() {
+        classes.push("dead-store-in-if-arm".into());
+        let downstream = info.dead_stores.iter().any(|(mi, p, reads)| {
+            let g = &gf[*mi];
+            let from: Vec<graph::Node> = (0..p.w).map(|b| (g.base[p.sig] + p.lo + b) as graph::Node).collect();
+            let to: std::collections::BTreeSet<graph::Node> =
+                reads.iter().flat_map(|r| (0..r.w).map(move |b| (g.base[r.sig] + r.lo + b) as graph::Node)).collect();
+            graph::reaches(g, &from, &to)
+        });
+        if downstream {
+            classes.push("dead-store-in-if-arm:reads-downstream-of-the-final-value".into());
+            if info.dead_stores.iter().any(|(mi, _, _)| v.coarse[*mi] && !v.fine[*mi].cyclic) {
+                classes.push("near-miss:module-with-downstream-dead-store".into());
+            }
+        }
     }
     let seq = design.modules.iter().any(|m| m.items.iter().any(|it| matches!(it, Item::Comb(ss) if comb_seq_reassign(ss))));
     if seq {
